@@ -31,6 +31,10 @@ def part_find(ctx):
         for combo in itertools.product(STATES, repeat=depth):
             for from_file in (False, True):
                 cases.append({"id": len(cases), "op": "c18.find", "levels": list(combo), "fromFile": from_file, "global": False})
+            if depth <= 3 and any(l["regalDir"] or l["regalYaml"] for l in combo):
+                # the same placement with the config directory / file linked into place from elsewhere
+                cases.append({"id": len(cases), "op": "c18.find", "levels": list(combo), "fromFile": False, "global": False,
+                              "symlinks": True})
     impl, model = ctx.impl(cases), ctx.model(cases)
     for c in cases:
         a, m = impl[c["id"]].get("out"), model[c["id"]].get("out") or {}
